@@ -24,6 +24,8 @@ time 2^64−1) and the negation witness at 2^64−1.
 -/
 import SerfProofs.Lemmas.EventBuf
 import SerfModel.Gen.BufLocks
+import SerfModel.Gen.BufHandler
+import SerfProofs.Lemmas.BufHandlerIR
 namespace SerfProofs.C05
 open SerfModel.Atomic SerfModel.EventBuf SerfProofs.EventBuf
 
@@ -384,5 +386,31 @@ theorem C05_counterexample_deliveries :
 not read before it).  This is what makes `handle` ONE atomic action, so that concurrent deliveries of the same
 event (gossip and push/pull at the same moment) are covered by the sequential theorems above. -/
 theorem C05_handler_holds_lock : SerfModel.Gen.BufLocks.handleUserEvent.wholeBodyExclusive = true := by decide
+
+/-- **Source tie (regenerated on every run): the body of `handleUserEvent`.**
+`Gen/BufHandler.lean` is the statement-by-statement translation of the function
+body in serf/serf.go (witness → cut-off guard → `curTime := eventClock.Time()` →
+too-old guard `curTime > LamportTime(len(buf)) && LTime < curTime-LamportTime(len(buf))`
+→ `idx := LTime % LamportTime(len(buf))` → slot load → same-time test / `Equals`
+loop / fresh record stored into the slot → append → delivery → `return true`).
+It is, literally, the body the proofs are about. -/
+theorem C05_gen_handler_body :
+    SerfModel.Gen.BufHandler.handleUserEvent = SerfProofs.BufHandlerIR.ueBody := by decide
+
+/-- **The translated body IS the model.** For every buffer, message time and item,
+interpreting the regenerated body of `handleUserEvent` yields exactly
+`EventBuf.handle`: the same buffer afterwards, and it returns `true` (re-broadcast)
+and sends on the event channel exactly when the model's outcome is `delivered`.
+An edit of a guard expression, of `curTime`, of the slot index, of the order of
+the statements, of the duplicate test or a dropped update changes the generated
+body and breaks this obligation (or makes the translator fail). -/
+theorem C05_handler_body_is_model (ctx : SerfModel.BufHandlerIR.Ctx) (b : Buf α) (lt : W) (x : α) :
+    (SerfModel.BufHandlerIR.run SerfModel.Gen.BufHandler.handleUserEvent ctx b lt x).1.buf = (handle b lt x).1
+    ∧ (SerfModel.BufHandlerIR.run SerfModel.Gen.BufHandler.handleUserEvent ctx b lt x).2
+        = decide ((handle b lt x).2 = .delivered)
+    ∧ (SerfModel.BufHandlerIR.run SerfModel.Gen.BufHandler.handleUserEvent ctx b lt x).1.delivered
+        = decide ((handle b lt x).2 = .delivered) := by
+  rw [C05_gen_handler_body]
+  exact SerfProofs.BufHandlerIR.ueBody_is_handle ctx b lt x
 
 end SerfProofs.C05
